@@ -54,7 +54,7 @@ AMBIENT = re.compile(
     r"^std::time::SystemTime::|^std::time::Instant::now$|^std::env::(var|var_os|vars|vars_os|args|args_os|current_dir|current_exe|temp_dir|home_dir)$|"
     r"^rand|^getrandom|^fastrand|std::hash::RandomState::new|std::collections::hash_map::RandomState::new|DefaultHasher|"
     r"^std::process::id$|^std::thread::current$|^std::thread::spawn$|^std::thread::scope$|"
-    r"std::fmt::Pointer|^std::fs::read_dir$|^std::fs::metadata$|^std::fs::symlink_metadata$|^std::net::|^std::io::stdin$")
+    r"std::fmt::Pointer|::addr$|expose_provenance|as_ptr$|^std::ptr::(hash|eq)$|^core::ptr::(hash|eq)$|<\*(const|mut) T as std::cmp::(Ord|PartialOrd)|^std::fs::read_dir$|^std::fs::metadata$|^std::fs::symlink_metadata$|^std::net::|^std::io::stdin$")
 
 
 def hash_evidence(b):
@@ -222,6 +222,11 @@ def run(tier):
                           "call to a time/random/process/thread/address/unsorted-directory source",
                           key="ambient:%s@%s" % (c, owner), file=b.relfile(), line=t["ln"], fn=owner)
         for bi, si, s in b.stmts():
+            if s["k"] == "assign" and s["r"]["k"] == "binop" and s["r"]["op"] in ("Lt", "Le", "Gt", "Ge") and not s.get("exp"):
+                tys = [b.local_ty(l) for o in (s["r"]["a"], s["r"]["b"]) for l in core.operand_locals(o)[:1]]
+                if any(t.startswith("*const") or t.startswith("*mut") for t in tys):
+                    rep.violation("R3.no-address-ordering", b.path, "raw pointers are ordered by address", key="ptr-order:%s" % b.path,
+                                  file=b.relfile(), line=s["ln"], fn=b.path)
             if s["k"] == "assign" and s["r"]["k"] == "cast" and "ExposeProvenance" in s["r"]["ck"] and not s.get("exp"):
                 rep.violation("R3.no-address-to-int", b.path, "pointer cast to integer (%s)" % s["r"]["ty"],
                               key="ptr2int:%s" % b.path, file=b.relfile(), line=s["ln"], fn=b.path)
